@@ -120,7 +120,7 @@ class C10(Prop):
         from .. import timegen as tg
         try:
             c05 = importlib.import_module("vlib.props.c05").PROP
-            fl = [c for c in c05.cases("quick", seed) if c.flavor == "threads"]
+            fl = [c for c in c05.cases("quick", seed) if c.flavor == "threads" and not c05.compare_from(c)]
             rng.shuffle(fl)
             for c in fl[: 1500 if tier == "quick" else 15000]:
                 d = c.copy()
